@@ -181,11 +181,19 @@ def gen_case(seed, tier):
     rng = random.Random(seed)
     fmt = rng.choice(['json', 'json', 'python', 'yaml', 'toml'])
     target = gen_target(rng, fmt)
-    mode = rng.choice(['plain', 'plain', 'plain', 'fault', 'fault', 'hostile', 'empty'])
+    mode = rng.choice(['plain', 'plain', 'plain', 'fault', 'fault', 'hostile', 'empty', 'falsy'])
     spec = gen_spec(rng, target)
+    if mode == 'falsy':
+        # a falsy TOP-LEVEL document is a target like any other
+        fmt = rng.choice(['json', 'yaml', 'python', 'yaml'])
+        target = rng.choice([[], 0, False, '', None, 0.0])
+        spec = rng.choice(['', 'T-free-path'])
+        mode = 'plain'
     spec_format = rng.choice(['python', 'python', 'python', 'json'])
     if spec_format == 'json':
         spec = json.loads(json.dumps(_jsonable_spec(spec)))
+    if spec in ('', 'T-free-path'):
+        spec_format = 'python'
     case = {'prop': PROP, 'seed': seed, 'fmt': fmt, 'target': target, 'spec': _tag_tuples(spec), 'spec_format': spec_format,
             'spec_channel': rng.choice(['argv', 'argv', 'file']),
             'target_channel': rng.choice(['argv', 'file', 'stdin-dash', 'stdin-implicit', 'file-dash']),
@@ -251,8 +259,9 @@ def _untag(s):
 # ------------------------------------------------------------------------------------ boundary stubs
 
 class SimFile:
-    def __init__(self, log, path, content, read_fault=None):
+    def __init__(self, log, path, content, read_fault=None, encoding='utf-8', errors='strict'):
         self.log, self.path, self.content, self.read_fault = log, path, content, read_fault
+        self.encoding, self.errors = encoding or 'utf-8', errors or 'strict'
         self.closed = False
 
     def read(self, *a):
@@ -261,7 +270,7 @@ class SimFile:
             raise OSError(errno.EIO, 'Input/output error')
         c = self.content
         if isinstance(c, bytes):
-            return c.decode('utf-8')     # raises UnicodeDecodeError like a real text-mode read
+            return c.decode(self.encoding, self.errors)     # raises UnicodeDecodeError like a real text-mode read
         return c
 
     def close(self):
@@ -290,7 +299,8 @@ class SimFS:
             raise PermissionError(errno.EACCES, 'Permission denied', path)
         if e == 'eisdir':
             raise IsADirectoryError(errno.EISDIR, 'Is a directory', path)
-        return SimFile(self.log, path, self.files[path], self.read_faults.get(path))
+        return SimFile(self.log, path, self.files[path], self.read_faults.get(path),
+                       encoding=kw.get('encoding') or (a[1] if len(a) > 1 else None), errors=kw.get('errors'))
 
 
 class SimStdin(io.StringIO):
@@ -352,7 +362,7 @@ def build_invocation(case):
         argv += ['--indent', str(case['indent'])]
     if case['scalar']:
         argv += ['--scalar']
-    no_spec = case.get('empty') == 'no-spec'
+    no_spec = case.get('empty') == 'no-spec' or spec in ('', 'T-free-path')
     # target text under faults
     if fault == 'truncated':
         target_text = target_text[:max(1, len(target_text) // 2)]
@@ -393,7 +403,12 @@ def build_invocation(case):
             elif fault == 'eio_read':
                 read_faults['/sim/target.dat'] = 'eio'
             elif fault == 'undecodable':
-                files['/sim/target.dat'] = b'\xff\xfe' + target_text.encode()
+                if case['seed'] % 2 and fmt in ('json', 'python'):
+                    # latin-1 bytes inside a string value: invalid UTF-8, but text that parses once replaced
+                    files['/sim/target.dat'] = json.dumps({'a': 'caf\u00e9', 'b': 1}).replace('\\u00e9', '\u00e9').encode('latin-1') \
+                        if fmt == 'json' else repr({'a': 'caf\u00e9', 'b': 1}).encode('latin-1')
+                else:
+                    files['/sim/target.dat'] = b'\xff\xfe' + target_text.encode()
     elif ch == 'stdin-dash':
         if not posargs:
             posargs.append('')
